@@ -219,7 +219,7 @@ func (w *World) BuildMsgs(a Act) (string, []sdk.Msg, error) {
 			conf = c
 		case "bat":
 			c := &mhubtypes.BatchTxConfirmation{ExternalTokenId: w.ExtTokenId(chain, tx.S("tok")), BatchNonce: tx.U("n"), ExternalSigner: claimed}
-			if otx := w.K.Mhub2.GetOutgoingTx(ctx, mhubtypes.ChainID(chain), c.GetStoreIndex(mhubtypes.ChainID(chain))); otx != nil && chain != "minter" {
+			if otx := w.K.Mhub2.GetOutgoingTx(ctx, mhubtypes.ChainID(chain), c.GetStoreIndex(mhubtypes.ChainID(chain))); otx != nil {
 				sigOver = otx.GetCheckpoint(gid)
 			}
 			conf = c
@@ -268,7 +268,7 @@ func (w *World) BuildMsgs(a Act) (string, []sdk.Msg, error) {
 		// i.e. the validator account's sequence before this tx; sigseq shifts it to model stale signatures.
 		seq := int64(w.AccSeq(val)) + a.I("sigseq")
 		if seq < 0 {
-			seq = 0
+			seq = 999 // any wrong nonce
 		}
 		sigVal := valAddr.String()
 		if a.Has("sigval") {
